@@ -1305,6 +1305,10 @@ class Flow:
                 cur = join([out_.fall, *out_.continues])
                 if cur.dead:
                     break
+                if len(cur.alts) > 1:
+                    # what one round established on some of its paths is not carried into the next round (as for an ordinary loop):
+                    # only what all paths agree on
+                    cur = State([Alt(cur.common_env(), cur.common_facts())])
             fall_ = join([cur, *breaks])
             return Outcome(None if fall_.dead else fall_)
         entry = self._loop_entry(s, st)
